@@ -63,10 +63,11 @@ Theorem C13_blocked_le_waiting : forall m acts, let s := exec (init m) acts in
 Proof. exact blocked_le_waiting. Qed.
 Print Assumptions C13_blocked_le_waiting.
 
-(* Hence at every quiescent point (nothing runnable) no call is blocked while quota is free,
-   and after GOAWAY / Close no call is blocked at all ... *)
-Theorem C13_quiescent : forall s, Inv s -> quiescent s ->
-  (dead s = true -> thr s = []) /\ (dead s = false -> thr s <> [] -> quota s <= 0).
+(* Hence at every quiescent point (no call that the scheduler lets run can move; [held] are
+   calls it keeps between "registered as a waiter" and "parked in the select") no call is
+   parked while quota is free, and after GOAWAY / Close no call is parked at all ... *)
+Theorem C13_quiescent : forall s held, Inv s -> quiescent s held -> held_blocked s held ->
+  (dead s = true -> parked s held = []) /\ (dead s = false -> parked s held <> [] -> quota s <= 0).
 Proof. exact quiescent_blocked_only_without_quota. Qed.
 Print Assumptions C13_quiescent.
 
@@ -94,17 +95,24 @@ Theorem C13_holds_on_every_model_trace : forall m0 ops, forallb op_wf ops = true
 Proof. exact model_trace_holds. Qed.
 Print Assumptions C13_holds_on_every_model_trace.
 
-Theorem C13_runner_steps_are_atomic_steps : forall s tid op s' o, Inv s ->
-  op_step s tid op = Some (s', o) -> exists acts, s' = exec s acts.
+Theorem C13_runner_steps_are_atomic_steps : forall s held tid op s' held' o, Inv s ->
+  op_step s held tid op = Some (s', held', o) -> exists acts, s' = exec s acts.
 Proof. exact op_step_reach. Qed.
 Print Assumptions C13_runner_steps_are_atomic_steps.
 
 (* non-vacuity: limit 1; second and third call wait; limit lowered to 0, the open stream
    closes (quota back to 0: nobody admitted); a SETTINGS frame without the parameter changes
-   nothing; limit raised to 2: both admitted with ids 3, 5. *)
+   nothing; limit raised to 2: both admitted with ids 3, 5.
+   Second trace: limit 2, two streams open, two further callers are held between registering
+   and parking; both streams end (one token, the second send finds the slot full); the first
+   released caller takes the token and a slot and hands the token on, so the second released
+   caller is admitted too. *)
 Example C13_witness :
   run [1] [[1]; [1]; [1]; [2; 0]; [3; 0; 0]; [6; 7]; [2; 2]] =
-  Some [[0;0;1;0;0;0;1;1;1]; [0;1;1;1;0;0;0]; [0;2;1;2;0;0;0]; [-1;2;1;2;0;0;0];
-        [0;2;0;2;0;0;0]; [0;2;0;2;0;0;0]; [0;0;2;0;0;0;2;3;5;3;5]] /\
-  forallb op_wf [[1]; [1]; [1]; [2; 0]; [3; 0; 0]; [6; 7]; [2; 2]] = true.
-Proof. vm_compute. split; reflexivity. Qed.
+  Some [[0;0;1;0;0;0;0;1;1;1]; [0;1;1;1;0;0;0;0]; [0;2;1;2;0;0;0;0]; [-1;2;1;2;0;0;0;0];
+        [0;2;0;2;0;0;0;0]; [0;2;0;2;0;0;0;0]; [0;0;2;0;0;0;0;2;3;5;3;5]] /\
+  forallb op_wf [[1]; [1]; [1]; [2; 0]; [3; 0; 0]; [6; 7]; [2; 2]] = true /\
+  run [2] [[1]; [1]; [7]; [7]; [3; 0; 1]; [3; 0; 1]; [8; 0]; [8; 0]] =
+  Some [[1;0;1;0;0;0;0;1;1;1]; [0;0;2;0;0;0;0;1;3;3]; [0;1;2;1;1;0;0;0]; [0;2;2;2;2;0;0;0];
+        [1;2;1;2;2;0;0;0]; [2;2;0;2;2;0;0;0]; [1;1;1;1;1;0;0;1;5;5]; [0;0;2;0;0;0;0;1;7;7]].
+Proof. vm_compute. repeat split; reflexivity. Qed.
